@@ -108,10 +108,28 @@ fn sign_class(v: i128) -> &'static str {
     }
 }
 
+/// Column flags other than UNSIGNED say nothing about how an integer travels: a client decodes by
+/// type and UNSIGNED alone. Every column of this check carries, besides UNSIGNED or not, one of these
+/// combinations (chosen by the case), and the verdicts must not depend on it.
+fn other_flags(k: u64) -> ColumnFlags {
+    match k % 8 {
+        0 | 1 => ColumnFlags::empty(),
+        2 => ColumnFlags::ZEROFILL_FLAG,
+        3 => ColumnFlags::NOT_NULL_FLAG,
+        4 => ColumnFlags::NOT_NULL_FLAG | ColumnFlags::PRI_KEY_FLAG | ColumnFlags::AUTO_INCREMENT_FLAG,
+        5 => ColumnFlags::BINARY_FLAG | ColumnFlags::NUM_FLAG,
+        6 => ColumnFlags::ZEROFILL_FLAG | ColumnFlags::NOT_NULL_FLAG | ColumnFlags::MULTIPLE_KEY_FLAG,
+        _ => ColumnFlags::all() & !ColumnFlags::UNSIGNED_FLAG,
+    }
+}
+fn flags_for(unsigned: bool, k: u64) -> ColumnFlags {
+    other_flags(k) | if unsigned { ColumnFlags::UNSIGNED_FLAG } else { ColumnFlags::empty() }
+}
+
 /// Evaluate one (source, value, column). Returns Some(violation) or None.
 fn eval(s: Src, v: i128, ci: usize, unsigned: bool, rep: &mut Report) {
     let (ct, t, cname) = COLS[ci];
-    let col = Column { table: String::new(), column: "c".into(), coltype: ct, colflags: if unsigned { ColumnFlags::UNSIGNED_FLAG } else { ColumnFlags::empty() } };
+    let col = Column { table: String::new(), column: "c".into(), coltype: ct, colflags: flags_for(unsigned, crate::util::mix64(v as u64 ^ ((ci as u64) << 56) ^ ((s as u64) << 48)) >> 7) };
     let (wire_r, oblig_r) = col_ranges(t, unsigned);
     let (slo, shi) = src_range(s);
     // acceptance is mandatory when the column's range contains the whole range of a fixed-width
@@ -263,7 +281,7 @@ pub fn run(ctx: &Ctx) -> Report {
             }
             opts[rng.usize(opts.len())].clone()
         };
-        let col = Column { table: "t".into(), column: "c".into(), coltype: ct, colflags: if unsigned { ColumnFlags::UNSIGNED_FLAG } else { ColumnFlags::empty() } };
+        let col = Column { table: "t".into(), column: "c".into(), coltype: ct, colflags: flags_for(unsigned, rng.next()) };
         let ops = vec![QOp::Start(0), QOp::Col(Cell::val(cell.clone())), QOp::EndRow, QOp::Finish];
         // a third of the sample travels in the text protocol: the client parses the digits
         if i % 3 == 2 {
@@ -343,7 +361,7 @@ pub fn run(ctx: &Ctx) -> Report {
             let nc = *rng.pick(&[1usize, 2, 3, 5, 6, 7, 8, 9, 14, 15, 16, 20, 30]);
             widths.push(nc);
             let cols: Vec<(usize, bool)> = (0..nc).map(|_| (rng.usize(6), rng.bool())).collect();
-            let columns: Vec<Column> = cols.iter().enumerate().map(|(c, &(ci, u))| Column { table: "t".into(), column: format!("c{}", c), coltype: COLS[ci].0, colflags: if u { ColumnFlags::UNSIGNED_FLAG } else { ColumnFlags::empty() } }).collect();
+            let columns: Vec<Column> = cols.iter().enumerate().map(|(c, &(ci, u))| Column { table: "t".into(), column: format!("c{}", c), coltype: COLS[ci].0, colflags: flags_for(u, rng.next()) }).collect();
             let nr = rng.range(1, 3) as usize;
             let mut ops = vec![QOp::Start(0)];
             let mut want = Vec::new();
